@@ -1,4 +1,5 @@
 import TinsModel.Basic.CursorLemmas
+import TinsModel.Wire.RegistryLemmas
 import TinsModel.Wire.L2.Theorems
 import TinsModel.Wire.Ip.Theorems
 import TinsModel.Wire.Transport.Theorems
@@ -20,6 +21,13 @@ theorem cursor_safe (b : Bytes) (ops : List CursorOp) :
   rcases Cursor.run_safe ops (Cursor.ofBytes b) (Cursor.ofBytes_inv b) with ⟨c', h, hi, _⟩ | h
   · exact .inl ⟨c', h, hi⟩
   · exact .inr h
+
+/-- **chain_parse_safe** — parsing a whole chain of nested layers (any depth) never faults, terminates within the
+    fuel the drivers use (`|b| + 2`) and throws only `malformed_packet`, provided every modelled class's constructor is
+    safe and hands its inner constructor a strictly shorter buffer (`Wire.ClassesSafe`, discharged per family). -/
+theorem chain_parse_safe (h : Wire.ClassesSafe) (cls : String) (b : Bytes) :
+    (Wire.parseChain (b.length + 2) cls b).Safe :=
+  Wire.parseChain_entry_safe h cls b
 
 /-- non-vacuity: a concrete operation sequence that succeeds and one that is rejected -/
 example : ∃ c', (Cursor.ofBytes [1, 2, 3, 4, 5]).run [.read 2, .peek 0 2, .shrink 2, .skip 2] = .ok c' := ⟨_, rfl⟩
